@@ -168,7 +168,11 @@ def gen(rng, tier, idx, rich=False):
         walk.append([start, bool(rng.random() < 0.5)])
     sched = simworld.random_sched(rng, 0)
     sched['poison'] = rng.random() < 0.7
-    return dict(P=grid[0] * grid[1], grid=grid, family=family, two2d=bool(locals().get('two2d')), order_shuffled=order_shuffled, pool=rng.random() < 0.06, groups=[[list(map(list, g.items()))][0] for g in groups],
+    # the layout named to the constructor need not be the one the first transposed array is in, and one swapper
+    # may serve several arrays that sit in different layouts
+    ctor_start = rng.choice(names_all) if rng.random() < 0.3 else None
+    other = [[rng.choice(names_all), rng.choice(names_all)] for _ in range(len(walk))] if rng.random() < 0.25 else None
+    return dict(P=grid[0] * grid[1], grid=grid, family=family, ctor_start=ctor_start, other=other, two2d=bool(locals().get('two2d')), order_shuffled=order_shuffled, pool=rng.random() < 0.06, groups=[[list(map(list, g.items()))][0] for g in groups],
                 nprocs=nprocs, shape=shape, start=start, walk=walk,
                 dtype=rng.choice(['float64', 'complex128']), sched=sched)
 
@@ -179,7 +183,7 @@ def build_swapper(comm, case):
     layouts = [{n: list(o) for n, o in g} for g in case['groups']]
     nprocs = [n if isinstance(n, int) else list(n) for n in case['nprocs']]
     try:
-        return LayoutSwapper(comm, layouts, nprocs, eta, case['start'])
+        return LayoutSwapper(comm, layouts, nprocs, eta, case.get('ctor_start') or case['start'])
     except Exception as e:   # noqa
         if case['family'] == 'driver' and not case.get('order_shuffled'):
             raise        # the driver's own groupings, listed as the driver lists them, must be accepted
@@ -217,6 +221,17 @@ def run(case, tape=None):
             ld = sw.getLayout(nxt)
             if bsize < ld.size:
                 raise OracleFail('buffer-size', dict(layout=nxt, bufferSize=bsize, size=int(ld.size)))
+            if case.get('other'):
+                # another array on the same swapper is moved between two layouts of its own in between
+                oa, ob = case['other'][step % len(case['other'])]
+                la, lb = sw.getLayout(oa), sw.getLayout(ob)
+                xa = cm.poison(np.empty(bsize, dtype=dt))
+                xb = cm.poison(np.empty(bsize, dtype=dt))
+                G2 = cm.global_array(case['shape'], case['dtype'], salt=50 + step)
+                xa[:la.size] = cm.local(G2, la).ravel()
+                sw.transpose(xa, xb, oa, ob)
+                if not cm.bits_equal(xb[:lb.size].reshape(lb.shape), cm.local(G2, lb)):
+                    raise OracleFail('wrong-data', dict(step=step, src=oa, dst=ob, rank=rank, why='second array on the same swapper'))
             want_src = cm.local(G, ls)
             if pool is not None:
                 del a, b
@@ -299,6 +314,8 @@ def run(case, tape=None):
             probes['sets_listed_in_another_order'] = 1
         if case.get('pool'):
             probes['arrays_are_short_lived_views'] = 1
+        if case.get('ctor_start') or case.get('other'):
+            probes['swapper_state_not_following_this_array'] = 1
         if case.get('two2d'):
             probes['several_2d_groups'] = 1
         return dict(nontrivial=(P > 1 and (ng + na) > 0), probes=probes)
@@ -311,6 +328,9 @@ def finding_key(case, res):
 
 
 def shrink(case):
+    for k in ('other', 'ctor_start', 'pool'):
+        if case.get(k):
+            yield dict(case, **{k: None})
     # shorter walks
     if len(case['walk']) > 1:
         yield dict(case, walk=case['walk'][:-1])
